@@ -1033,11 +1033,13 @@ class Database(object):
                         if not attr.table:
                             seq_counter = itertools.count(2)
                             while m2m_table is not None:
+                                suffix = '_%d' % next(seq_counter)
+                                max_len = provider.max_name_len - len(suffix)  # the suffixed name should fit too
                                 if isinstance(table_name, str):
-                                    new_table_name = table_name + '_%d' % next(seq_counter)
+                                    new_table_name = table_name[:max_len] + suffix
                                 else:
                                     schema_name, base_name = provider.split_table_name(table_name)
-                                    new_table_name = schema_name, base_name + '_%d' % next(seq_counter)
+                                    new_table_name = schema_name, base_name[:max_len] + suffix
                                 m2m_table = schema.tables.get(new_table_name)
                             table_name = new_table_name
                         elif m2m_table.entities or m2m_table.m2m: throw(MappingError,
@@ -3216,16 +3218,17 @@ class Set(Collection):
             else: attr.columns = provider.get_default_m2m_column_names(entity)
             attr._columns_checked = True
             attr.converters = entity._pk_converters_
+            max_len = provider.max_name_len - len('_2')  # the suffixed name should fit into max_name_len too
 
             if attr.symmetric:
                 if not attr.reverse_columns:
-                    attr.reverse_columns = [ column + '_2' for column in attr.columns ]
+                    attr.reverse_columns = [ column[:max_len] + '_2' for column in attr.columns ]
                 elif len(attr.reverse_columns) != pk_length:
                     throw(MappingError, "Invalid number of reverse columns for symmetric attribute %s" % attr)
                 return attr.columns if not is_reverse else attr.reverse_columns
             else:
                 if not reverse.columns:
-                    reverse.columns = [ column + '_2' for column in attr.columns ]
+                    reverse.columns = [ column[:max_len] + '_2' for column in attr.columns ]
                 reverse._columns_checked = True
                 reverse.converters = entity._pk_converters_
                 return attr.columns if not is_reverse else reverse.columns
